@@ -106,6 +106,11 @@ pub fn draw_vars(r: &mut Rng, discovered: &[(String, Vec<String>)]) -> Vec<(Stri
             v.retain(|(n, _)| n != name);
         }
     }
+    // an unrelated variable whose value is not valid UTF-8 (legacy locales, binary blobs): U+E9FF stands for
+    // the single byte 0xE9 and is substituted when the process is started
+    if mode > 0 && r.chance(1, 4) {
+        v.push((r.pick(&["LEGACY_LATIN1_LABEL", "LESSOPEN_BLOB", "X"]).to_string(), format!("caf\u{e9ff}{}", r.below(10))));
+    }
     // the order of the environment block (what `std::env::vars()` iterates in) is seeded, too
     r.shuffle(&mut v);
     // the environment block sits above the stack: its size displaces every stack address
